@@ -25,7 +25,7 @@ extern unsigned g_json_version, g_json_mutations, g_json_loads_flags, g_json_dum
 	 (VJ(p)->tracked->type != JSON_STRING || \
 	  ((LEN) < 0x1000000 && __CPROVER_is_fresh(VJ(p)->tracked->sval, (LEN) + 1) && \
 	   VJ(p)->tracked->sval[LEN] == 0))))
-extern size_t g_vj_len_a, g_vj_len_b;	/* ghost string lengths (token side / configuration side) */
+extern size_t g_vj_len_a, g_vj_len_b, g_vj_len_c, g_vj_len_d;	/* ghost string lengths (token side / configuration side) */
 /* spec view of the tracked member */
 #define VJ_HAS(p) (VJ(p)->tracked != NULL)
 #define VJ_TYPE(p) (VJ(p)->tracked->type)
